@@ -59,6 +59,7 @@ INPUTS = {
               "'a.b.RegexSerDe' WITH SERDEPROPERTIES (\"input.regex\" = \"(a|b)\") STORED AS TEXTFILE;", {}),
     "lt_last": ("CREATE TABLE t (a int, m MAP<STRING, INT>);\nSELECT a FROM t WHERE a < 5 AND f(b;", {}),
     # statements aimed at tables that other inputs define ("t", "s.t"): alone these raise ValueError
+    "nosemi": ("CREATE TABLE hr.e (a int, b varchar(5))\nCREATE TABLE hr.f (c int)\nCREATE SEQUENCE hr.q START 1", {}),
     "alter_only": ("ALTER TABLE t ADD CONSTRAINT u9 UNIQUE (a);\nCREATE INDEX i9 ON t (a);", {}),
     "alter_only_s": ("ALTER TABLE s.t ADD COLUMN z int;", {}),
 }
